@@ -390,6 +390,54 @@ Qed.
 
 (* ------------------------------------------------------------------ the steps seen by the oracles are ExDefs' parse of the line *)
 From NV Require ExDefs ExCapParse.
+
+(* ------------------------------------------------------------------ the three scanners against ExDefs (the reference line editor's parser):
+   TrEx.ex_*_safe (C text = CapDefs, every line shorter than EXLEN, destination of EXLEN cells: no store leaves it) composed with
+   ExCapParse.ex_*_bridge (CapDefs = ExDefs on NUL-free lines) *)
+Theorem tr_ex_loc_model m bs bd s blk i d fuel :
+  str_at m bs s -> nonul s -> nth_error m bd = Some blk -> Z.of_nat (length blk) = EXLEN -> bs <> bd ->
+  nth_error m G_exloc = Some gb_exloc -> G_exloc <> bd ->
+  Z.of_nat (length s) < EXLEN -> (i <= length s)%nat -> (2 * S (length s) <= fuel)%nat ->
+  let rest := fst (ExDefs.ex_loc (skipn i s)) in
+  let loc := snd (ExDefs.ex_loc (skipn i s)) in
+  exists i', rest = skipn i' s /\ (i <= i' <= length s)%nat /\ (length loc < length blk)%nat /\
+    callf cprog fuel (S d) F_ex_loc [VPtr bs (Z.of_nat i); VPtr bd 0] m
+    = Ok (VPtr bs (Z.of_nat i'), upd m bd (cstr_cells loc ++ skipn (S (length loc)) blk)).
+Proof.
+  intros Hs Hn Hd Hlen Hne Hlit Hg Hln Hi Hf rest loc.
+  destruct (ex_loc_safe m bs bd s blk i d fuel Hs (nonul_lt256 s Hn) Hd Hlen Hne Hlit Hg Hln Hi Hf) as (i' & w & E & C & L1 & L2 & L3 & L4).
+  destruct (ExCapParse.ex_loc_bridge CapDefs.excap s i i' w Hn Hi E) as (B & _ & _).
+  exists i'. unfold rest, loc. rewrite B. cbn [fst snd]. repeat split; try assumption; lia.
+Qed.
+Theorem tr_ex_cmd_model m bs bd s blk i d fuel :
+  str_at m bs s -> nonul s -> nth_error m bd = Some blk -> Z.of_nat (length blk) = EXLEN -> bs <> bd ->
+  Z.of_nat (length s) < EXLEN -> (i <= length s)%nat -> (S (length s) <= fuel)%nat ->
+  let rest := fst (ExDefs.ex_cmd (skipn i s)) in
+  let cmd := snd (ExDefs.ex_cmd (skipn i s)) in
+  exists i', rest = skipn i' s /\ (i <= i' <= length s)%nat /\ (length cmd <= 17)%nat /\
+    callf cprog fuel (S d) F_ex_cmd [VPtr bs (Z.of_nat i); VPtr bd 0] m
+    = Ok (VPtr bs (Z.of_nat i'), upd m bd (cstr_cells cmd ++ skipn (S (length cmd)) blk)).
+Proof.
+  intros Hs Hn Hd Hlen Hne Hln Hi Hf rest cmd.
+  destruct (ex_cmd_safe m bs bd s blk i d fuel Hs (nonul_lt256 s Hn) Hd Hlen Hne Hln Hi Hf) as (i' & w & E & C & L1 & L2 & L3 & L4).
+  destruct (ExCapParse.ex_cmd_bridge CapDefs.excap s i i' w Hn Hi E) as (B & _ & _).
+  exists i'. unfold rest, cmd. rewrite B. cbn [fst snd]. repeat split; try assumption; lia.
+Qed.
+Theorem tr_ex_arg_model m bs bd be s e blk i d fuel :
+  str_at m bs s -> nonul s -> nth_error m bd = Some blk -> Z.of_nat (length blk) = EXLEN -> bs <> bd ->
+  str_at m be e -> nonul e -> be <> bd ->
+  Z.of_nat (length s) < EXLEN -> (i <= length s)%nat -> (S (length s) <= fuel)%nat ->
+  let rest := fst (ExDefs.ex_arg (skipn i s) e) in
+  let arg := snd (ExDefs.ex_arg (skipn i s) e) in
+  exists i', rest = skipn i' s /\ (i <= i' <= length s)%nat /\ (length arg < length blk)%nat /\
+    callf cprog fuel (S d) F_ex_arg [VPtr bs (Z.of_nat i); VPtr bd 0; VPtr be 0] m
+    = Ok (VPtr bs (Z.of_nat i'), upd m bd (cstr_cells arg ++ skipn (S (length arg)) blk)).
+Proof.
+  intros Hs Hn Hd Hlen Hne He Hne' Hbe Hln Hi Hf rest arg.
+  destruct (ex_arg_safe m bs bd be s e blk i d fuel Hs (nonul_lt256 s Hn) Hd Hlen Hne He (nonul_lt256 e Hne') Hbe Hln Hi Hf) as (i' & w & E & C & L1 & L2 & L3 & L4).
+  destruct (ExCapParse.ex_arg_bridge CapDefs.excap s i i' w e Hn Hne' Hi E) as (B & _ & _).
+  exists i'. unfold rest, arg. rewrite B. cbn [fst snd]. repeat split; try assumption; lia.
+Qed.
 Definition triple_of (r : bytes * bytes * Z * bytes) : bytes * bytes * bytes := let '(l, c, _, a) := r in (l, c, a).
 Definition rec_cmd (r : bytes * bytes * Z * bytes) : bytes := let '(_, c, _, _) := r in c.
 Theorem runs_parse_line ext bs s bl bc ba n tr ret m ret' m' : nonul s ->
@@ -461,4 +509,5 @@ Proof.
   rewrite (callx_mono ext cprog fuel (S (S d)) F_lbuf_modified _ _ _ (proj1 (tr_lbuf_modified m1 bl blk lb d fuel R Hints Hmax))). xstep. reflexivity.
 Qed.
 
+Print Assumptions tr_ex_loc_model. Print Assumptions tr_ex_cmd_model. Print Assumptions tr_ex_arg_model.
 Print Assumptions tr_ex_exec. Print Assumptions tr_ex_exec_long. Print Assumptions runs_parse_line. Print Assumptions tr_ex_command. Print Assumptions tr_ex_command_deep.
